@@ -10,7 +10,7 @@ Import ListNotations.
 (* ---------- the property at full strength (statements) ----------
    [fun2core_correct_statement]: for every annotated (type-checked) program inside the property's
    precondition, every terminating defined run of the source is reproduced by the Core machine on the
-   translated program.  FALSE of the faithful model: before fix <commitcap> by variable capture
+   translated program.  FALSE of the faithful model: before fix d5d4151 by variable capture
    (C02_fun2core_capture_refuted_before_fix below), and still by a call whose target is main
    (C02_fun2core_call_to_main_refuted, whose witness is also inside this precondition). *)
 Definition fun2core_correct_statement : Prop :=
@@ -30,7 +30,7 @@ Definition fun2core_correct_guarded_statement : Prop :=
     run_fun n p args = o -> defined o = true ->
     exists m, run_core m c args = o.
 
-(* ---------- REPAIRED (fix <commitcap> of /repo): variable capture on the section-7.1 witness ----------
+(* ---------- REPAIRED (fix d5d4151 of /repo): variable capture on the section-7.1 witness ----------
    Before the fix the translation placed the continuation it was given UNDER the binder of a `let` /
    under the pattern binders of a `case` even when the continuation mentions a variable of that name, which
    was thereby captured.  [compile_prog_before_fix] is the model with the old behaviour (regression): there
@@ -159,7 +159,7 @@ Theorem C02_wc_expression_is_cut : forall e, iexp e = true ->
 Proof. exact wc_iexp. Qed.
 Print Assumptions C02_wc_expression_is_cut.
 
-(* the hygiene statement at full strength, NOT proved (false of the translation before fix <commitcap>
+(* the hygiene statement at full strength, NOT proved (false of the translation before fix d5d4151
    without the guard, see the capture witness): under [barendregt] the Core machine on the translated
    program reproduces the source - this is fun2core_correct_guarded_statement above; its name-level
    reading "every occurrence of a source variable, covariable or label in compile_prog p is bound by
@@ -223,7 +223,7 @@ Print Assumptions C02_fun2core_correct_partial.
                                              of a parameter or binder of the SAME kind and type
                                              annotation (what the type checker guarantees),
      and main has data-typed producer parameters and a data result.
-   NO CAPTURE GUARD any more (it was `nocap (fdbody d)` until fix <commitcap>): binders may shadow each
+   NO CAPTURE GUARD any more (it was `nocap (fdbody d)` until fix d5d4151): binders may shadow each
    other and the parameters freely; the Barendregt condition is not needed.
    Conclusion: EVERY source run that ends in a final outcome ([final]: normal exit or undefined
    arithmetic; stuck and out-of-fuel runs are not compared) is reproduced, output and outcome, by the
@@ -267,7 +267,7 @@ Print Assumptions C02_barendregt_implies_capture_guard.
 
 (* ... the theorem under the guard of fun2core_correct_guarded_statement plus the fragment:
    [frag_prog p]: every definition is in the fragment and well-scoped, main returns data (since fix
-   <commitcap> [frag_prog] and [prog_guard] are the same predicate and the Barendregt hypothesis is unused) *)
+   d5d4151 [frag_prog] and [prog_guard] are the same predicate and the Barendregt hypothesis is unused) *)
 Theorem C02_fun2core_correct_fragment2_barendregt :
   forall (p : fcprog) (c : cprog) (args : list Z) (n : nat) (o : obs),
     compile_prog p = Ok c ->
